@@ -475,7 +475,7 @@ def canon_model_rows(rows, cfg):
         out.append((pk, t))
     # an empty raw-styled header inside a box is just the box's vertical bar: a decoration row
     for i in range(1, len(out) - 1):
-        if out[i] in (("blank", ""), ("raw", "")) and rows[i][0] == "raw" and rows[i][1].strip() == "" \
+        if out[i] in (("blank", ""), ("raw", "")) and rows[i][0] == "raw" and rows[i][1] == " " \
                 and rows[i][2] == rows[i - 1][2] == rows[i + 1][2] and out[i - 1][0] == "deco" and out[i + 1][0] == "deco":
             out[i] = ("deco", "")
     return out
